@@ -160,6 +160,10 @@ def write_mc(dirpath, name, extends, defs, cfg_lines):
 # ------------------------------------------------------------------------------------------------------------------
 # exported transition relation -> covering walks
 
+class ExportCorrupt(Exception):
+    pass
+
+
 def parse_export(path):
     """Lines  <<"T", "<json>">>  printed by the Export action constraint.  Returns (edges, counts-text)."""
     edges = []
@@ -169,14 +173,32 @@ def parse_export(path):
         for line in f:
             # (TLC prints its progress reports from another thread: one may land on the same line as a record)
             while line.startswith('<<"T", '):
-                inner, end = dec.raw_decode(line, 7)
-                edges.append(json.loads(inner))
+                try:
+                    inner, end = dec.raw_decode(line, 7)
+                    edges.append(json.loads(inner))
+                except ValueError:
+                    raise ExportCorrupt(line[:300])
                 line = line[end:]
                 if line.startswith('>>'):
                     line = line[2:]
             if line.strip() and not line.startswith('<<'):
                 tail.append(line)
     return edges, ''.join(tail)
+
+
+def tlc_export(cwd, module, cfg, outp, attempts=3, **kw):
+    """run TLC with its output in `outp` and parse the exported records; a record damaged by interleaved output (seen
+    once under heavy load) makes the run be repeated rather than a transition be lost"""
+    last = None
+    for _ in range(attempts):
+        rc, _, dt = tlc(cwd, module, cfg, outfile=outp, **kw)
+        try:
+            edges, tail = parse_export(outp)
+            return rc, edges, tail, dt
+        except ExportCorrupt as e:
+            last = e
+            log('damaged record in %s, repeating the TLC run: %s' % (outp, str(e)[:120]))
+    raise InfraError('TLC output damaged %d times in a row: %s' % (attempts, str(last)[:300]))
 
 
 def covering_walks(edges, init_key, max_len=300, key=lambda s: json.dumps(s, sort_keys=True), stop_edge=None):
